@@ -871,6 +871,9 @@ class EntryGraph:
         for l in range(1, root.body['argc'] + 1):
             if root.body['locals'][l] == 'bool':
                 sigma0[(0, l)] = ('atom', self.param_name(root, l), False)
+            elif re.match(r'^[iu](8|16|32|64|128|size)$', root.body['locals'][l]):
+                # integer entry parameters: repeated comparisons of the same parameter with the same constant correlate
+                sigma0[(0, l)] = ('pv', self.param_name(root, l))
         self.states = []          # id -> (ctx id, bb, sigma)
         self.state_id = {}
         self.succ = []            # id -> list of (dst id, label)
@@ -988,6 +991,11 @@ class EntryGraph:
                     return ('i', v[1])
                 return ('dof', tgt, self._nvariants(rv.get('ty', '')))
             return None
+        if k == 'bin' and rv['op'] in ('Eq', 'Ne', 'Lt', 'Le', 'Gt', 'Ge'):
+            pa = self._stable_op(env, cid, rv['a'])
+            pb = self._stable_op(env, cid, rv['b'])
+            if pa is not None and pb is not None and (pa[0] == 'p' or pb[0] == 'p'):
+                return ('atom', '%s(%s,%s)' % (rv['op'], pa[1], pb[1]), False)
         if k == 'bin' and rv['op'] in ('Eq', 'Ne'):
             a = self._int_op(env, cid, rv['a'])
             b = self._int_op(env, cid, rv['b'])
@@ -1029,6 +1037,16 @@ class EntryGraph:
         if a is not None:
             return len(a['variants'])
         return 0
+
+    def _stable_op(self, env, cid, o):
+        """operand that denotes the same value wherever it is evaluated: an integer entry parameter or an integer constant"""
+        if o['k'] == 'const':
+            m = re.match(r'^(?:const )?(-?\d+)_(isize|usize|[iu]\d+)$', o['v'].strip())
+            return ('c', m.group(1)) if m else None
+        v = self._val_op(env, cid, o)
+        if v is not None and v[0] == 'pv':
+            return ('p', v[1])
+        return None
 
     def _int_op(self, env, cid, o):
         if o['k'] == 'const':
@@ -1181,7 +1199,7 @@ class EntryGraph:
                     else:
                         for i, a in enumerate(args):
                             v = self._val_op(env, cid, a)
-                            if v is not None and v[0] != 'dof':
+                            if v is not None and v[0] not in ('dof', 'dofcmp'):
                                 env[(ch.id, i + 1)] = v
                     out.append((ch.id, 0, env, 'call'))
             else:
